@@ -167,6 +167,8 @@ def cval(j):
         return 'VTuple ' + clist([cval(x) for x in v])
     if k == 'd':
         return 'VDict ' + clist([f'({cval(a)}, {cval(b)})' for a, b in v])
+    if k == 'fn':
+        return f'VFun {cstr(v)}'
     if k == 'a':
         return f'VApp {cstr(v[0])} ' + clist([cval(x) for x in v[1]]) + ' ' + clist([f'({cstr(a)}, {cval(b)})' for a, b in v[2]])
     raise ValueError(j)
@@ -199,6 +201,30 @@ def cedge(d):
 
 def cgraph(nodes):
     return clist(['Leaf' if d['k'] == 'leaf' else f'Inner ({cedge(d)}) ' + clist([str(p) for p in d['ps']]) for d in nodes])
+
+
+def chash(j):
+    """None: not recorded; {'exc': ..}: get_hash raised; otherwise a hash term"""
+    if j is None:
+        return 'None'
+    if 'exc' in j:
+        return 'Some None'
+    return 'Some (Some (' + chash1(j) + '))'
+
+
+def chash1(j):
+    (k, v), = j.items()
+    if k == 'L':
+        return f'HLeaf ({cval(v)})'
+    if k == 'A':
+        return f'HApply {cstr(v[0])} ' + clist([chash1(x) for x in v[1]]) + ' ' + clist([cstr(x) for x in v[2]])
+    if k == 'G':
+        return f'HGraph ({chash1(v)})'
+    if k == 'C':
+        return f'HCustom {cstr(v[0])} ' + clist([chash1(x) for x in v[1]])
+    if k == 'P':
+        return 'HPlaceholder'
+    raise ValueError(j)
 
 
 def cxres(r):
